@@ -192,6 +192,36 @@ class H2D:
         return H2D(self.rows, self.cols, self.get, self.etype, self.note)
 
 
+class HRec:
+    """List of records (struct of arrays): length + one meta-level function per field."""
+
+    def __init__(self, length, fields, cls="rec", ftypes=None):
+        self.len = z3.IntVal(length) if isinstance(length, int) else length
+        self.fields = dict(fields)
+        self.cls = cls
+        self.ftypes = ftypes or {}
+        self.numpy = False
+
+    def copy(self):
+        return HRec(self.len, self.fields, self.cls, self.ftypes)
+
+
+class VRecRef(V):
+    """Element k of the record list at heap address addr."""
+    kind = "recref"
+
+    def __init__(self, addr, idx):
+        self.addr, self.idx = addr, idx
+
+
+class VRecProto(V):
+    """A freshly constructed record (not yet stored in a list)."""
+    kind = "recproto"
+
+    def __init__(self, cls, fields):
+        self.cls, self.fields = cls, dict(fields)
+
+
 class HDict:
     """Dictionary with Label/Int keys: has(k) -> Bool term, val(k) -> V, plus an insertion-order
     list (HSeq of keys) when order is observable."""
@@ -267,6 +297,8 @@ def type_of(v, heap=None):
             return T("arr2", et)
         if isinstance(o, HDict) and o.ktype is not None and o.vtype is not None:
             return T("dict", o.ktype, o.vtype, o.keys is not None)
+        if isinstance(o, HRec) and o.ftypes:
+            return T("recseq", o.cls, tuple(sorted(o.ftypes.items(), key=lambda kv: kv[0])))
     if isinstance(v, VConc) and getattr(v, "gtype", None) is not None:
         return v.gtype
     if isinstance(v, VConc):
